@@ -32,8 +32,9 @@ fn preimage(tx: &Transaction, op: &Op, spent: &[TxOut], genesis: BlockHash) -> S
         match op {
             Op::Legacy(i, t, s) => match c.encode_legacy_signing_data_to(&mut w, *i, &Script::from(s.clone()), ecdsa(*t).unwrap()) { Ok(()) => ok_hex(&w), Err(_) => "err:encode".into() },
             Op::Segwit(i, t, s, v) => match c.encode_segwitv0_signing_data_to(&mut w, *i, &Script::from(s.clone()), *v, ecdsa(*t).unwrap()) { Ok(()) => ok_hex(&w), Err(_) => "err:encode".into() },
-            Op::Taproot(..) | Op::Key(..) | Op::ScriptSpend(..) => {
+            Op::Taproot(..) | Op::Key(..) | Op::ScriptSpend(..) | Op::ScriptPathSpend(..) => {
                 let (i, t, pv, annex, leaf) = match op.clone() {
+                    Op::ScriptPathSpend(i, t, p, sc) => (i, t, p, None, Some((elements::sighash::ScriptPath::with_defaults(&Script::from(sc)).leaf_hash().to_byte_array(), 0xffff_ffffu32))),
                     Op::Taproot(i, t, p, a, l) => (i, t, p, a, l),
                     Op::Key(i, t, p) => (i, t, p, None, None),
                     Op::ScriptSpend(i, t, p, h) => (i, t, p, None, Some((h, 0xffff_ffffu32))),
@@ -60,8 +61,8 @@ fn spec_defined(tx: &Transaction, op: &Op, spent: &[TxOut]) -> Option<bool> {
     let nin = tx.input.len();
     match op {
         Op::Legacy(i, _, _) | Op::Segwit(i, _, _, _) => Some(*i < nin),
-        Op::Taproot(..) | Op::Key(..) | Op::ScriptSpend(..) => {
-            let (i, t, pv, annex) = match op { Op::Taproot(i, t, p, a, _) => (*i, *t, p, a.clone()), Op::Key(i, t, p) => (*i, *t, p, None), Op::ScriptSpend(i, t, p, _) => (*i, *t, p, None), _ => unreachable!() };
+        Op::Taproot(..) | Op::Key(..) | Op::ScriptSpend(..) | Op::ScriptPathSpend(..) => {
+            let (i, t, pv, annex) = match op { Op::ScriptPathSpend(i, t, p, _) => (*i, *t, p, None), Op::Taproot(i, t, p, a, _) => (*i, *t, p, a.clone()), Op::Key(i, t, p) => (*i, *t, p, None), Op::ScriptSpend(i, t, p, _) => (*i, *t, p, None), _ => unreachable!() };
             let ty = schnorr(t)?;
             match pv { Pv::One(j) | Pv::OneX(j, _) => { if !(*j == i && schnorr_acp(ty)) { return None; } } Pv::All => {} }
             let annex_ok = match &annex { None => true, Some(a) => a.first() == Some(&0x50) };
@@ -102,6 +103,9 @@ pub fn eval(case: &str) -> Out {
         match op {
             Op::Key(i, t, p) => { let d2 = query(&mut SighashCache::new(&tx), &Op::Taproot(*i, *t, p.clone(), None, None), &spent, genesis);
                 if d2 != digest { fails.push(format!("entry-point-disagree|query {} ({}): key-spend {} vs taproot_sighash {}", k, show_op(op), digest, d2)); } }
+            Op::ScriptPathSpend(i, t, p, sc) => { let h = elements::sighash::ScriptPath::with_defaults(&Script::from(sc.clone())).leaf_hash().to_byte_array();
+                let d2 = query(&mut SighashCache::new(&tx), &Op::Taproot(*i, *t, p.clone(), None, Some((h, 0xffff_ffff))), &spent, genesis);
+                if d2 != digest { fails.push(format!("entry-point-disagree|query {} ({}): script-spend from a script {} vs taproot_sighash {}", k, &show_op(op)[..40.min(show_op(op).len())], digest, d2)); } }
             Op::ScriptSpend(i, t, p, h) => { let d2 = query(&mut SighashCache::new(&tx), &Op::Taproot(*i, *t, p.clone(), None, Some((*h, 0xffff_ffff))), &spent, genesis);
                 if d2 != digest { fails.push(format!("entry-point-disagree|query {} ({}): script-spend {} vs taproot_sighash {}", k, show_op(op), digest, d2)); } }
             Op::Legacy(i, t, _) if (*t & 0x1f) == 3 && *i < tx.input.len() && *i >= tx.output.len() => {
@@ -130,6 +134,7 @@ fn rtap(rng: &mut ChaCha20Rng, idx: usize, t: u8, spent: &[TxOut], tags: &mut Ve
     match rng.gen_range(0..8) {
         0 => { tags.push("entry:key-spend".into()); Op::Key(idx, t, pv) }
         1 => { tags.push("entry:script-spend".into()); Op::ScriptSpend(idx, t, pv, r32(rng)) }
+        2 => { tags.push("entry:script-spend-from-script".into()); let sc = rleafscript(rng, false, tags); Op::ScriptPathSpend(idx, t, pv, sc) }
         _ => {
             let leaf = if rng.gen_range(0..2) == 0 { tags.push("scriptpath".into()); Some((r32(rng), pk!(rng, [0xffff_ffffu32, 0, 7, rng.gen()]))) } else { tags.push("keypath".into()); None };
             if leaf.map(|l| l.1 != 0xffff_ffff).unwrap_or(false) { tags.push("codesep".into()); }
@@ -187,6 +192,35 @@ pub fn gen(rng: &mut ChaCha20Rng, n: usize, thorough: bool) -> Vec<Case> {
         tags.sort(); tags.dedup();
         let nt = interesting(&tx);
         let mut c = mk_case(&tx, &spent, r32(rng), &ops, tags, nt);
+        c.text = format!("C03{}", &c.text[3..]);
+        out.push(c);
+    }
+    // targeted: issuance range proofs on inputs WITHOUT an issuance (each field, on the signed input and on another one), an issuing input
+    // beside them; every Schnorr type on key and script path, All and One
+    {
+        let mut tags = vec!["src:targeted-stray-rangeproofs".to_string()];
+        let mut tx = loop { let t = rsigtx(rng, &mut tags); if t.input.len() >= 3 && t.input.iter().filter(|i| !i.has_issuance()).count() >= 2 { break t; } };
+        let plain: Vec<usize> = (0..tx.input.len()).filter(|&i| !tx.input[i].has_issuance()).collect();
+        tx.input[plain[0]].witness.amount_rangeproof = Some(rrangeproof(rng)); tx.input[plain[0]].witness.inflation_keys_rangeproof = None;
+        tx.input[plain[1]].witness.inflation_keys_rangeproof = Some(rrangeproof(rng)); tx.input[plain[1]].witness.amount_rangeproof = None;
+        let spent: Vec<TxOut> = (0..tx.input.len()).map(|_| rtxout(rng, Feat { big: false, no_witness: true }, &mut vec![])).collect();
+        let mut ops = Vec::new();
+        for idx in 0..tx.input.len() { for t in SCHNORR_TYPES {
+            ops.push(Op::Key(idx, t, Pv::All));
+            ops.push(Op::Taproot(idx, t, if t >= 0x81 { Pv::One(idx) } else { Pv::All }, None, Some((r32(rng), 0xffff_ffff))));
+        } }
+        let mut c = mk_case(&tx, &spent, r32(rng), &ops, tags, true);
+        c.text = format!("C03{}", &c.text[3..]);
+        out.push(c);
+    }
+    // targeted: the library computes the leaf hash from a script whose length sits on every compact-size boundary
+    {
+        let mut tags = vec!["src:targeted-leaf-script-lengths".to_string()];
+        let tx = rsigtx(rng, &mut tags);
+        let spent: Vec<TxOut> = (0..tx.input.len()).map(|_| rtxout(rng, Feat { big: false, no_witness: true }, &mut vec![])).collect();
+        let lens: &[usize] = if thorough { &[0, 1, 252, 253, 254, 255, 256, 65535, 65536, 65537] } else { &[0, 252, 253, 254, 65535, 65536] };
+        let ops: Vec<Op> = lens.iter().map(|&n| Op::ScriptPathSpend(0, *pick(rng, &SCHNORR_TYPES), Pv::All, rbytes(rng, n))).collect();
+        let mut c = mk_case(&tx, &spent, r32(rng), &ops, tags, true);
         c.text = format!("C03{}", &c.text[3..]);
         out.push(c);
     }
